@@ -16,7 +16,12 @@ PKG=$(head -3 $SRC/demo_seeded_test.go | grep -o -E '(ingest|search|api|graph|re
 echo "demo package dir: $PKG"
 res() { echo "$1"; }
 ( cd $WT && git apply $SRC/patch.diff ) || { echo "PATCH DOES NOT APPLY"; git -C /repo worktree remove --force $WT; exit 2; }
-SUITE=$(cd $M && go test -vet=off -count=1 -timeout 60m $(go list ./... 2>/dev/null | grep -v -E 'gdal|/cmd/') 2>&1 | grep -v "^ok\|no test files" | head -10)
+# the packages whose tests the patch can affect: the touched ones and everything that imports them (code or tests);
+# set SEEDED_WHOLE_SUITE=1 to run every package as rounds 1 and 2 did
+if [ -n "${SEEDED_WHOLE_SUITE:-}" ]; then PKGS=$(cd $M && go list ./... 2>/dev/null | grep -v -E 'gdal|/cmd/'); else PKGS=$(python3 /verif/tools_affected.py $M $SRC/patch.diff); fi
+echo "suite packages: $PKGS"
+[ -z "$PKGS" ] && { echo "NO AFFECTED PACKAGES FOUND"; git -C /repo worktree remove --force $WT; exit 2; }
+SUITE=$(cd $M && go test -vet=off -count=1 -timeout 60m $PKGS 2>&1 | grep -v "^ok\|no test files" | head -10)
 if [ -n "$SUITE" ]; then echo "SUITE WITH PATCH: NOT CLEAN"; echo "$SUITE"; else echo "SUITE WITH PATCH: all packages ok"; fi
 cp $SRC/demo_seeded_test.go $M/$PKG/zz_demo_seeded_test.go
 WITH=$(cd $M && go test -vet=off -count=1 -run "^($RUN)\$" ./$PKG/ 2>&1 | tail -3)
@@ -36,7 +41,7 @@ import json,sys
 id,src,pkg=sys.argv[1:4]
 try: m=json.load(open(src+'/meta.json'))
 except Exception: m={}
-m.update({"property":id.split('-')[0],"demo_dir":pkg,"confirmed":"seeded_confirm.sh: whole existing suite (all packages except cgo gdal and cmd) passes with the patch; demonstration fails with the patch and passes without it, in a scratch worktree of /repo main"})
+m.update({"property":id.split('-')[0],"demo_dir":pkg,"confirmed":"seeded_confirm.sh: the existing tests of every package the patch can affect (touched packages and all their importers; all packages except cgo gdal and cmd when SEEDED_WHOLE_SUITE=1) pass with the patch; demonstration fails with the patch and passes without it, in a scratch worktree of /repo main"})
 json.dump(m,open('/verif/seeded/%s/meta.json'%id,'w'),indent=1)
 PY
   echo "CONFIRMED -> /verif/seeded/$ID"
